@@ -400,14 +400,14 @@ def main(ctx):
     for (path, idx), clauses in sorted(broken_runs.items()):
         run = runs_by_part[path][idx]
         for key, cl in attribute(run, clauses).items():
-            ent = by_key.setdefault(key, {"n": 0, "run": run, "clauses": set(), "path": path, "idx": idx})
+            # reported example: a single crash that already shows the consequence (most clauses), then the shortest run
+            size = (sum(1 for y in run["rows"] if y["ev"] == "Crash"), -len(cl), 0 if run["reset"].get("src") == "tlc" else 1,
+                    len(run["rows"]))
+            ent = by_key.setdefault(key, {"n": 0, "run": run, "clauses": set(), "path": path, "idx": idx, "size": size})
             ent["n"] += 1
             ent["clauses"] |= cl
-            # prefer the schedule with the fewest crashes / the shortest one as the reported example
-            def size(x):
-                return (sum(1 for y in x["rows"] if y["ev"] == "Crash"), 0 if x["reset"].get("src") == "tlc" else 1, len(x["rows"]))
-            if size(run) < size(ent["run"]):
-                ent["run"], ent["path"], ent["idx"] = run, path, idx
+            if size < ent["size"]:
+                ent["run"], ent["path"], ent["idx"], ent["size"] = run, path, idx, size
     for key in sorted(by_key):
         ent = by_key[key]
         ex = ctx.path("replay_%s.ndjson" % key.replace(":", "_")[:60])
